@@ -382,6 +382,26 @@ def run(ctx):
 
     ctx.section(_sec_state)
 
+    def _sec_shared():
+        # ------------------------------------------------------------- shared truth
+        # ground_truth parses the truth ONCE and hands the same object to the emitter of every target in turn:
+        # an emitter that mutates what it is given changes the interface the next target receives.
+        from . import c10
+
+        g_ = index.func("cdd.shared.conformance.ground_truth")
+        tables = [n for n in ast.walk(g_.node) if isinstance(n, ast.Dict) and n.values and all(isinstance(v, ast.Tuple) and len(v.elts) == 3 for v in n.values)]
+        ctx.need(len(tables) == 1, "ground_truth no longer holds one {kind: (parse, emit, node type)} table")
+        entries = []
+        for v in tables[0].values:
+            q = index.resolve(g_.mod, v.elts[1], g_)
+            ctx.need(q in index.funcs, "an emitter of the conformance table does not resolve: {}".format(short(v.elts[1], 60)))
+            f_ = index.funcs[q]
+            entries.append((f_, f_.params[0]))
+        ctx.floor("emitters in the conformance table", len(entries), 3)
+        c10.inputmut_rule(ctx, "C12.shared", entries, "sync hands the one parsed truth to every target in turn, so the next target is generated from a different interface")
+
+    ctx.section(_sec_shared)
+
     def _sec_create():
         # ------------------------------------------------------------- create
         # "missing or empty target files are created with that interface": the target is emitted by the emitter handed
